@@ -118,7 +118,7 @@ def run_check(prop, tier, seed):
                 if code.startswith('H.'):
                     raise vf.HarnessError('harness self-check %s failed at %s:%d' % (code, r['path'], idx))
                 evs, target = vf.context_events(r['path'], idx)
-                pending.append((code, evs, target, '%s:%d' % (os.path.basename(r['path']), idx)))
+                pending.append((code, evs, target, '%s:%d' % (os.path.basename(r['path']), idx), (r['path'], idx)))
         for (code, evs, note) in extra_bads:
             if code is None:
                 # disagreement found by TLC's own enumeration: the failed demands are determined by
@@ -128,14 +128,14 @@ def run_check(prop, tier, seed):
                 if not codes:
                     raise vf.HarnessError('graph disagreement at %s is not reproduced by the trace specification' % note)
                 for c in codes:
-                    pending.append((c, evs, new[-1], note))
+                    pending.append((c, evs, new[-1], note, None))
             elif code == 'C19.race':
                 violations.append((code, evs, note))      # a detector report is not re-executable
             else:
-                pending.append((code, evs, evs[-1], note))
+                pending.append((code, evs, evs[-1], note, None))
 
         replayed_codes = {}
-        for (code, evs, target, note) in pending:
+        for (code, evs, target, note, origin) in pending:
             if not claimed(code, plan['codes']):
                 others.append((code, note))
                 continue
@@ -143,12 +143,23 @@ def run_check(prop, tier, seed):
             # re-execute in isolation (bounded: a few per demand code, all get classified)
             cnt = replayed_codes.get(code, 0)
             if cnt < 3:
-                new, codes = vf.replay_events(harness, evs, scratch, module=plan.get('trace_module', 'Trace'),
-                                              any_event=note.startswith('graph point'))
+                mod = plan.get('trace_module', 'Trace')
+                new, codes = vf.replay_events(harness, evs, scratch, module=mod, any_event=note.startswith('graph point'))
+                if code not in codes and origin:
+                    # not reproduced by the call alone: the behaviour may depend on what the process did
+                    # before (state leaking between calls). Re-execute the history that preceded it.
+                    for whole in (False, True):
+                        hist = vf.prefix_events(origin[0], origin[1], whole_shard=whole)
+                        new, codes = vf.replay_events(harness, hist, scratch, module=mod)
+                        if code in codes:
+                            evs = hist
+                            note += ' (needs the %d preceding calls of the %s: state leaks between calls)' % (
+                                len(hist) - 1, 'driver process' if whole else 'trace chunk')
+                            break
                 replayed_codes[code] = cnt + 1
                 if code not in codes:
-                    raise vf.HarnessError('mismatch %s at %s did not reproduce in isolation (codes now %s); '
-                                          'not a verdict' % (code, note, codes))
+                    raise vf.HarnessError('mismatch %s at %s did not reproduce, neither in isolation nor with its history '
+                                          '(codes now %s); not a verdict' % (code, note, codes))
             if k:
                 known_hits.append((k, code, note))
             else:
